@@ -1,7 +1,6 @@
 package main
 
 import (
-	"syscall"
 	"encoding/json"
 	"fmt"
 	"hash/fnv"
@@ -13,6 +12,7 @@ import (
 	"strconv"
 	"strings"
 	"sync"
+	"syscall"
 	"time"
 
 	"verifharness/evid"
@@ -468,14 +468,14 @@ func coordinator(id, tr string) int {
 	mu.Unlock()
 	exhaustive := !to && len(total.Caps) == 0 && !internal
 	cov := map[string]interface{}{
-		"evaluations":         total.Counters["evaluations"],
-		"distinct_nontrivial": total.Counters["distinct_nontrivial"],
-		"rule":                c.Rule,
-		"samples":             total.Samples,
-		"exhaustive":          exhaustive,
-		"caps":                total.Caps,
-		"counters":            total.Counters,
-		"workers":             nw,
+		"evaluations":                         total.Counters["evaluations"],
+		"distinct_nontrivial":                 total.Counters["distinct_nontrivial"],
+		"rule":                                c.Rule,
+		"samples":                             total.Samples,
+		"exhaustive":                          exhaustive,
+		"caps":                                total.Caps,
+		"counters":                            total.Counters,
+		"workers":                             nw,
 		"violations_confirmed_by_reexecution": confirmed,
 		"known_findings_observed":             len(observedKnown),
 	}
